@@ -57,9 +57,10 @@ def pieces (sep : Char) (s : List Char) : List (List Char) := piecesFrom sep [] 
 
 /-- `(text before the first sep, text after it)`; `none` after it when there is no `sep` -/
 def cutAtFirst (sep : Char) (s : List Char) : List Char × Option (List Char) :=
-  match s.span (fun c => c != sep) with
-  | (a, []) => (a, none)
-  | (a, _ :: rest) => (a, some rest)
+  let before := s.takeWhile (fun c => c != sep)
+  match s.dropWhile (fun c => c != sep) with
+  | [] => (before, none)
+  | _ :: rest => (before, some rest)
 
 /-! ## one bound -/
 
